@@ -124,6 +124,10 @@ def enumerated(tier):
       for size in sizes:
         yield {'k': 'roundtrip', 'cmd': cmd, 'a0': a0, 'a1': a1, 'size': size}
   yield {'k': 'badcmd'}
+  for sizes in ([3, 5], [5, 3], [4, 4, 4], [1, 0, 2], [0, 6], [MAXDATA, 1]):
+    for peek in (False, True):
+      for args in (False, True):
+        yield {'k': 'reuse', 'sizes': sizes, 'peek': peek, 'args': args}
   # corruptions of a few base frames
   bases = [('WRTE', 7, 9, 5), ('OKAY', 1, 2, 0), ('CNXN', 0x01000000, 4096, 33)]
   if tier == 'thorough':
@@ -203,6 +207,50 @@ def run_roundtrip(case):
     viol.append({'mechanism': 'roundtrip-read-count',
                  'detail': {'reads': len(tr2.reads), 'left': len(tr2.chunks)}})
   return _result(case, viol, {'frames_roundtrip': 1, 'chunk_logs_checked': 1})
+
+
+def run_reuse(case):
+  """One AdbMessage object is written, its public fields are reassigned and it
+  is written again (a sender re-using a message): every written frame must
+  match the fields it had when it was written and read back identically."""
+  am = _M['adb_message']
+  viol = []
+  msg = am.AdbMessage('WRTE', 1, 2, payload_of(case['sizes'][0], 7))
+  tr = Transport()
+  ad = am.AdbTransportAdapter(tr)
+  want = []
+  n = 0
+  for i, size in enumerate(case['sizes']):
+    if i:
+      msg.data = payload_of(size, 7 + i)
+      if case.get('args'):
+        msg.arg0, msg.arg1 = 10 + i, 20 + i
+    if case.get('peek'):
+      _ = msg.header        # header / checksum looked at before the write
+    ad.write_message(msg, to())
+    want.append(spec_header('WRTE', msg.arg0, msg.arg1, msg.data))
+    want.append(msg.data)
+    n += 1
+  got = [c[1] for c in tr.log]
+  if got != want:
+    first = next((i for i in range(min(len(got), len(want)))
+                  if got[i] != want[i]), None)
+    viol.append({'mechanism': 'written-frame-differs-from-spec',
+                 'detail': {'reused_message': True, 'chunk': first,
+                            'sizes': case['sizes']}})
+  else:
+    tr2 = Transport(chunks=[c for c in want if c != '' ])
+    for i, size in enumerate(case['sizes']):
+      try:
+        back = am.AdbTransportAdapter(tr2).read_message(to())
+        if len(back.data) != size:
+          viol.append({'mechanism': 'roundtrip-differs',
+                       'detail': {'reused_message': True, 'frame': i}})
+      except Exception as e:  # pylint: disable=broad-except
+        viol.append({'mechanism': 'roundtrip-raises:' + type(e).__name__,
+                     'detail': {'reused_message': True, 'frame': i}})
+        break
+  return _result(case, viol, {'frames_roundtrip': n, 'chunk_logs_checked': 1})
 
 
 def run_badcmd(case):
@@ -563,6 +611,6 @@ def run_timeout(case):
 
 def run_case(case):
   k = case['k']
-  return {'roundtrip': run_roundtrip, 'badcmd': run_badcmd,
+  return {'roundtrip': run_roundtrip, 'badcmd': run_badcmd, 'reuse': run_reuse,
           'corrupt': run_corrupt, 'pause': run_pause, 'stress': run_stress,
           'timeout': run_timeout}[k](case)
